@@ -54,6 +54,66 @@ def _run_z3(smt2, timeout_ms, want_model, noext=False):
     return verdict, reason, time.time() - t0, model
 
 
+def _run_z3_hard(smt2, timeout_ms, want_model, noext=False):
+    """_run_z3 in a forked child with a HARD wall-clock limit.  z3's timeout and the interrupt watchdog are both ignored in some phases
+    (measured on lemma L-count/base with extensionality off: 185 s on a 5 s budget in one run, 0.1 s in the next; in a smaller sandbox the
+    same query kept a quick check busy for more than 900 s).  The child is killed `grace` seconds after its budget: the attempt is
+    `unknown` and the next member of the portfolio gets its turn."""
+    import pickle
+    import select
+    grace = 4.0
+    t0 = time.time()
+    try:
+        r, w = os.pipe()
+        pid = os.fork()
+    except OSError:
+        return _run_z3(smt2, timeout_ms, want_model, noext)
+    if pid == 0:
+        code = 0
+        try:
+            os.close(r)
+            out = _run_z3(smt2, timeout_ms, want_model, noext)
+            with os.fdopen(w, "wb") as f:
+                pickle.dump(out, f)
+        except BaseException:
+            code = 1
+        os._exit(code)
+    os.close(w)
+    out = None
+    try:
+        deadline = t0 + timeout_ms / 1000.0 + grace
+        buf = b""
+        while True:
+            left = deadline - time.time()
+            if left <= 0:
+                break
+            rl, _, _ = select.select([r], [], [], left)
+            if not rl:
+                break
+            chunk = os.read(r, 1 << 16)
+            if not chunk:
+                break
+            buf += chunk
+        if buf:
+            try:
+                out = pickle.loads(buf)
+            except Exception:
+                out = None
+    finally:
+        os.close(r)
+        try:
+            os.kill(pid, 9)
+        except OSError:
+            pass
+        try:
+            os.waitpid(pid, 0)
+        except OSError:
+            pass
+    if out is None:
+        return "unknown", "z3: no answer within the hard time limit (attempt killed)", time.time() - t0, None
+    return out
+
+
 def _run_cvc5(smt2, timeout_ms):
     t0 = time.time()
     if not os.path.exists(CVC5):
@@ -84,15 +144,15 @@ def _work(item):
     if expect == "unsat":
         # Portfolio.  Array extensionality off is a weaker theory (fewer axioms): only `unsat` is accepted from it, and it is
         # both faster and far more stable on the quantified obligations here, so it goes first with a third of the budget.
-        v0, r0, t0, _ = _run_z3(smt2, max(1000, z3_timeout // 3), want_model=False, noext=True)
+        v0, r0, t0, _ = _run_z3_hard(smt2, max(1000, z3_timeout // 3), want_model=False, noext=True)
         t += t0
         if v0 == "unsat":
             return oid, "unsat", "z3-noext", "", t, None
-    verdict, reason, t1, model = _run_z3(smt2, z3_timeout, want_model=True)
+    verdict, reason, t1, model = _run_z3_hard(smt2, z3_timeout, want_model=True)
     t += t1
     backend = "z3"
     if verdict == "unknown" and expect == "unsat":
-        v1, r1, t2, _ = _run_z3(smt2, z3_timeout, want_model=False, noext=True)
+        v1, r1, t2, _ = _run_z3_hard(smt2, z3_timeout, want_model=False, noext=True)
         t += t2
         if v1 == "unsat":
             verdict, reason, backend = "unsat", "", "z3-noext"
@@ -113,74 +173,130 @@ def _work_both(item):
     return oid, v2, r2, t2
 
 
-def _child(fn, item, conn):
+WORKER_MEM_MB = int(os.environ.get("VERIF_WORKER_MEM_MB", "6000"))
+
+
+def _limit_memory():
+    """A solver worker may not eat the machine: z3 was observed to grow to 32 GB on one obligation (the kernel's OOM killer then took a
+    worker and, before robust_map, the check waited forever; in a smaller sandbox the same growth made the check exceed 900 s).  z3's own
+    cap turns the blow-up into `unknown`; the address-space limit is the backstop (the worker dies, the obligation is `unknown`)."""
     try:
-        conn.send(fn(item))
-    except BaseException as exc:      # noqa: the parent must always get an answer
-        conn.send(("__error__", repr(exc)))
-    finally:
+        z3.set_param("memory_max_size", max(500, WORKER_MEM_MB - 1500))
+    except Exception:
+        pass
+    try:
+        import resource
+        cap = WORKER_MEM_MB * 1024 * 1024
+        soft, hard = resource.getrlimit(resource.RLIMIT_AS)
+        if hard == resource.RLIM_INFINITY or cap <= hard:
+            resource.setrlimit(resource.RLIMIT_AS, (cap, hard))
+    except Exception:
+        pass
+
+
+def _worker_loop(fn, conn):
+    _limit_memory()
+    while True:
+        try:
+            item = conn.recv()
+        except (EOFError, OSError):
+            break
+        if item is None:
+            break
+        try:
+            out = fn(item)
+        except MemoryError:
+            out = ("__error__", "MemoryError")
+        except BaseException as exc:      # noqa: the parent must always get an answer
+            out = ("__error__", repr(exc))
+        try:
+            conn.send(out)
+        except (OSError, ValueError):
+            break
+    try:
         conn.close()
-
-
-def _one_isolated(fn, item, hard_timeout):
-    """Run fn(item) in its own forked process; a solver that crashes (segfault, out of memory) or ignores every time limit costs
-    that one obligation (verdict `unknown`), never the run.  Returns fn's result or None."""
-    ctx = mp.get_context("fork")
-    r, w = ctx.Pipe(duplex=False)
-    p = ctx.Process(target=_child, args=(fn, item, w))
-    p.start()
-    w.close()
-    out = None
-    try:
-        if r.poll(hard_timeout):
-            out = r.recv()
-    except (EOFError, OSError):
-        out = None
-    if p.is_alive():
-        p.join(1)
-    if p.is_alive():
-        p.kill()
-    p.join()
-    r.close()
-    if isinstance(out, tuple) and out and out[0] == "__error__":
-        return None
-    return out
+    except OSError:
+        pass
+    os._exit(0)
 
 
 def robust_map(fn, items, jobs, hard_timeout, fallback):
-    """pool.map that survives dying workers: multiprocessing.Pool.map waits forever when a worker is killed in the middle of a task
-    (observed: a z3 worker died, the check hung for 20 minutes at zero load).  First a process pool executor (which reports a broken
-    pool instead of hanging); whatever it did not finish is re-run one forked process per item."""
-    import concurrent.futures as cf
-    results = {}
+    """map() over forked solver workers that survives dying and hanging workers.  multiprocessing.Pool.map waits forever when a worker
+    is killed in the middle of a task (observed: the kernel's OOM killer took a z3 worker, the check hung for 20 minutes at zero load), and
+    a pool cannot stop one worker whose solver ignores every time limit.  Here the parent hands out one item at a time over a pipe, knows
+    what each worker is doing and since when, and replaces a worker that died or overran `hard_timeout` seconds; that item gets
+    `fallback(item)` (verdict `unknown`: undecided, never a violation)."""
+    from multiprocessing.connection import wait as mpwait
+    ctx = mp.get_context("fork")
+    results = [None] * len(items)
+    done = [False] * len(items)
+    pending = list(range(len(items)))[::-1]
+
+    def spawn():
+        parent, child = ctx.Pipe()
+        p = ctx.Process(target=_worker_loop, args=(fn, child), daemon=True)
+        p.start()
+        child.close()
+        return {"p": p, "c": parent, "cur": None, "t0": 0.0}
+
+    def retire(w):
+        try:
+            w["c"].close()
+        except OSError:
+            pass
+        if w["p"].is_alive():
+            w["p"].kill()
+        w["p"].join(5)
+
+    workers = [spawn() for _ in range(max(1, min(jobs, len(items))))]
     try:
-        with cf.ProcessPoolExecutor(max_workers=min(jobs, len(items)), mp_context=mp.get_context("fork")) as ex:
-            futs = {ex.submit(fn, it): i for i, it in enumerate(items)}
+        while pending or any(w["cur"] is not None for w in workers):
+            for k, w in enumerate(workers):
+                if w["cur"] is None and pending:
+                    idx = pending.pop()
+                    try:
+                        w["c"].send(items[idx])
+                        w["cur"], w["t0"] = idx, time.time()
+                    except (OSError, ValueError):
+                        pending.append(idx)
+                        retire(w)
+                        workers[k] = spawn()
+            busy = [w for w in workers if w["cur"] is not None]
+            ready = mpwait([w["c"] for w in busy], timeout=1.0) if busy else []
+            now = time.time()
+            for k, w in enumerate(workers):
+                if w["cur"] is None:
+                    continue
+                idx = w["cur"]
+                if w["c"] in ready:
+                    try:
+                        out = w["c"].recv()
+                    except (EOFError, OSError):
+                        out = None
+                    if out is None or (isinstance(out, tuple) and out and out[0] == "__error__"):
+                        results[idx] = fallback(items[idx])
+                        if out is None:                      # the worker died
+                            retire(w)
+                            workers[k] = w = spawn()
+                    else:
+                        results[idx] = out
+                    done[idx] = True
+                    w["cur"] = None
+                elif now - w["t0"] > hard_timeout or not w["p"].is_alive():
+                    results[idx] = fallback(items[idx])
+                    done[idx] = True
+                    retire(w)
+                    workers[k] = spawn()
+    finally:
+        for w in workers:
             try:
-                for f in cf.as_completed(futs, timeout=hard_timeout * (len(items) // max(1, jobs) + 2)):
-                    try:
-                        results[futs[f]] = f.result()
-                    except Exception:
-                        pass
-            except cf.TimeoutError:
+                w["c"].send(None)
+            except (OSError, ValueError):
                 pass
-            if len(results) < len(items):
-                for f in futs:
-                    f.cancel()
-                for pr in list(getattr(ex, "_processes", {}).values()):
-                    try:
-                        pr.kill()
-                    except Exception:
-                        pass
-    except Exception:
-        pass
-    left = [i for i in range(len(items)) if i not in results]
-    if left:
-        from concurrent.futures import ThreadPoolExecutor
-        with ThreadPoolExecutor(min(jobs, len(left))) as tp:
-            for i, out in zip(left, tp.map(lambda i: _one_isolated(fn, items[i], hard_timeout), left)):
-                results[i] = out if out is not None else fallback(items[i])
-    return [results[i] for i in range(len(items))]
+        for w in workers:
+            w["p"].join(2)
+            retire(w)
+    return [results[i] if done[i] else fallback(items[i]) for i in range(len(items))]
 
 
 def discharge(obligations, jobs=None, use_cvc5=True, z3_timeout=None):
